@@ -846,6 +846,16 @@ def _pool():
     return multiprocessing.get_context("fork").Pool(min(16, os.cpu_count() or 1))
 
 
+def _pmap(pool, fn, tasks, tier):
+    """pool.map with an overall time limit: a hang in the code under check is a checker error (exit 3), never a verdict."""
+    limit = 900 if tier == "quick" else 3600
+    try:
+        return pool.map_async(fn, tasks, chunksize=1).get(timeout=limit)
+    except multiprocessing.TimeoutError:
+        pool.terminate()
+        raise RuntimeError("bounded check did not finish within %d s (non-terminating call in the code under check, or overloaded machine)" % limit)
+
+
 def _chunks(lst, n):
     return [lst[i:i + n] for i in range(0, len(lst), n)]
 
@@ -978,7 +988,7 @@ def check_c18(rep, tier, seed):
     tasks = [(c, ("a", "b", "c"), wlen, True) for c in _chunks(strings, 40)]
     pool = _pool()
     try:
-        res_enum = pool.map(_c18_task, tasks, chunksize=1)
+        res_enum = _pmap(pool, _c18_task, tasks, tier)
         # live patterns over the data-unit names
         level, literal, _prio = live_patterns()
         names = data_unit_names()
@@ -992,7 +1002,7 @@ def check_c18(rep, tier, seed):
                 names = names + sorted(extra)
         live_len = wlen
         # one task per (pattern, first symbol) so the big level pattern spreads over the pool
-        res_live = pool.map(_c18_task_split, [(s, tuple(names), live_len, i) for s in live for i in range(len(names))], chunksize=1)
+        res_live = _pmap(pool, _c18_task_split, [(s, tuple(names), live_len, i) for s in live for i in range(len(names))], tier)
     finally:
         pool.close()
         pool.join()
@@ -1377,7 +1387,7 @@ def check_c19(rep, tier, seed):
 
     def run(pool, cases, chunk):
         t1 = time.time()
-        r = _merge_c19(pool.map(_c19_task, _chunks(cases, chunk), chunksize=1))
+        r = _merge_c19(_pmap(pool, _c19_task, _chunks(cases, chunk), tier))
         group_wall[len(group_wall)] = round(time.time() - t1, 1)
         return r
 
@@ -1489,25 +1499,30 @@ REGISTER = {
         extra=[check_c19],
         level="other",
         assumptions=_COMMON_ASSUMPTIONS + [
-            "C19 bounds: required lists of length <= 3 (quick) / <= 4 (thorough) over {a,b,c}; single patterns of <= 4 / <= 5 nodes exhaustively; ordered pattern pairs "
-            "of <= 2 nodes exhaustively and pairs of <= 4 / <= 5 nodes only SAMPLED with the run's seed; depth_limit in {1,2,3}; symbol_priority in {[], [c,b]}; "
-            "the live level x encoder x test-case pattern combinations with 0..3 / 0..5 identical picture or fragment symbols",
+            "C19 bounds (quick / thorough). EXHAUSTIVE: single patterns of <= 3 nodes x required lists of length <= 3 over {a,b,c} / single patterns of <= 4 nodes x lists "
+            "of length <= 3 plus patterns of <= 3 nodes x lists of length <= 4; ordered pattern pairs of <= 1 / <= 2 nodes x lists of length <= 3. Only SAMPLED with the run's "
+            "seed (biased towards cases that have some completion): 3000 / 60000 single patterns of 4 / 5 nodes and 5000 / 60000 ordered pairs of patterns of <= 4 / <= 5 nodes, "
+            "lists of length <= 3 / <= 4. Everywhere depth_limit in {1,2,3} and symbol_priority in {[], [c,b]}. Plus the live level x encoder x test-case pattern "
+            "combinations with 0..3 / 0..5 identical picture or fragment symbols (depth_limit {1,3} / {1,2,3}) and the two DESIGN.md D7 witnesses",
             "'shortest' is judged among the sequences that have an embedding of the required list with at most depth_limit consecutive inserted symbols (the search space the "
             "function documents); results that are longer than some sequence needing MORE consecutive insertions are counted in the evidence but not reported as violations",
             "WILDCARD in a returned sequence is read as 'a symbol named by no pattern' (it must be matched by a '.' in every pattern); the preference among equally "
             "short results (symbol_priority order) is not part of the property and is not checked",
             "a returned sequence is not required to respect depth_limit itself; a result where impossibility was permitted is accepted if it is sound and shortest",
             "failing cases are attributed to D7 / to the inherited D4 / to both only by the explained-by predicates described in this module's docstring",
+            "encoder/sequence.py is only READ (with ast) to obtain the pattern literals and the symbol_priority it passes; make_sequence itself is not executed, so a change of "
+            "how the encoder composes its arguments is not covered here",
+            "termination is not checked: a call that does not return within the run's time limit is a checker error, not a verdict",
         ],
         manifest=dict(
             category="other",
             technique="bounded exhaustive + seeded-sample comparison of the real make_matching_sequence with an own complete breadth-first reference search over "
                       "derivative states; explained-by predicates (greedy-commit search; bidirectional-epsilon automaton) for the known defects",
-            text="Bounded, not a proof. For all required lists of length <= 3 / <= 4 over {a,b,c}, all single patterns of <= 4 / <= 5 nodes, all ordered pairs of "
-                 "patterns of <= 2 nodes, a seeded sample of larger pairs, depth limits 1..3 and two symbol priorities, and for the live level/encoder/test-case "
-                 "pattern combinations with up to 3 / 5 pictures or fragments: a returned list contains the required symbols in order, matches every pattern and is "
-                 "as short as the shortest sequence reachable with at most depth_limit consecutive insertions; ImpossibleSequenceError is raised only if no such "
-                 "sequence exists.",
+            text="Bounded, not a proof. Exhaustively for single patterns of <= 3 (quick) / <= 4 (thorough) nodes and ordered pattern pairs of <= 1 / <= 2 nodes with all "
+                 "required lists of length <= 3 over {a,b,c} (thorough also length 4 for patterns of <= 3 nodes), for a seeded sample of larger single patterns and pairs "
+                 "(<= 4 / <= 5 nodes), depth limits 1..3 and two symbol priorities, and for the live level/encoder/test-case pattern combinations with up to 3 / 5 pictures "
+                 "or fragments: a returned list contains the required symbols in order, matches every pattern and is as short as the shortest sequence reachable with at "
+                 "most depth_limit consecutive insertions; ImpossibleSequenceError is raised only if no such sequence exists.",
             note="Level 'other' (bounded, partly sampled). Known defects D7 (greedy commitment) and inherited D4 are recognised only through exact reproduction by "
                  "deliberately defective reference searches.",
         ),
